@@ -139,13 +139,16 @@ def fe_value(it, p, off, cell, weights):
     if bs is None: return None
     return sum(int.from_bytes(bytes(bs[cell * i: cell * i + cell]), "little") << w for i, w in enumerate(weights)) % (2**255 - 19)
 
-def heap_straus(rep, cfg, path, n):
+def heap_straus(rep, cfg, path, n, backend=None):
     """constant-time Straus: at every dealloc no freed cell may hold a digit of a secret scalar"""
     t0 = time.time()
-    rec = dict(harness="%s/heap EdwardsPoint::multiscalar_mul n=%d" % (cfg, n), config=cfg, function="EdwardsPoint::multiscalar_mul -> serial::scalar_mul::straus::Straus::multiscalar_mul", goals=[],
+    rec = dict(harness="%s/heap EdwardsPoint::multiscalar_mul n=%d" % (cfg + ("+" + backend if backend else ""), n), config=cfg, function="EdwardsPoint::multiscalar_mul -> serial::scalar_mul::straus::Straus::multiscalar_mul", goals=[],
                bounds="n = %d points, all digits of all scalars symbolic" % n)
     try:
         it = gsym.GSym(module(path))
+        if backend:
+            from checks.c04 import force_backend
+            force_backend(it, backend)
         freed = []
         def on_dealloc(p, args):
             R = it.regions[p.r]
@@ -164,6 +167,9 @@ def heap_straus(rep, cfg, path, n):
         for r, size, dirty, kind in freed:
             rec["goals"].append(dict(goal="freed block %s (%s bytes, %s): no cell depends on a secret scalar" % (r, size, kind), verdict="unsat" if dirty == 0 else "sat", solver_s=0.0, cases=1, solver_calls=0,
                                      kind="memory cells are secret-independent", dirty_cells=dirty))
+        if backend:
+            vec = [c for c in it.calls if "vector" in c and "scalar_mul" in c]
+            rec["goals"].append(dict(goal="the %s vector copy of Straus was the one executed" % backend, verdict="unsat" if vec else "sat", solver_s=0.0, cases=1, solver_calls=0, kind="structural"))
         bad = [g for g in rec["goals"] if g["verdict"] != "unsat"]
         rec["status"] = "ok" if not bad else "violation"
         if bad: rec["why"] = bad[0]["goal"]
@@ -267,6 +273,9 @@ def run(tier, seed):
     tasks.append(lambda: zeroize_harness(rep, cfg, cp, "vp_z_fe", "FieldElement", 40, zero(40)))
     for n in ((1, 2, 190) if tier == "quick" else (1, 2, 3, 8, 190, 500, 800)):
         tasks.append(lambda n=n: heap_straus(rep, cfg, cp, n))
+    sp = build.ir("simd", "O0")
+    for n in ((1, 2) if tier == "quick" else (1, 2, 3, 8, 190)):
+        tasks.append(lambda n=n: heap_straus(rep, "simd", sp, n, backend="avx2"))
     from checks.c02 import SC
     for n in ((1, 2, 3, 5) if tier == "quick" else (1, 2, 3, 4, 5, 6, 9)):
         tasks.append(lambda n=n: heap_batch_invert(rep, cfg, cp, n, SC[cfg]))
